@@ -157,7 +157,7 @@ func init() {
 	extraJobs["C07"] = func(tier string) []Job {
 		return []Job{
 			{Engine: "conc", Backends: []string{"mem-sw-livecur", "mem-sw-livecur", "mem-opt-snapcur", "mem-opt-snapcur", "mem-opt-livecur", "mem-sw-snapcur"}, Quick: 14000, Thorough: 400000},
-			{Engine: "conc", Backends: []string{"bbolt", "badger-mem", "badger-mem"}, Quick: 600, Thorough: 30000},
+			{Engine: "conc", Backends: []string{"bbolt", "bbolt", "badger-mem"}, Quick: 2400, Thorough: 60000},
 			{Engine: "conc", Backends: []string{"bbolt", "badger-mem"}, Quick: 80, Thorough: 4000, Params: map[string]string{"race": "1"}},
 		}
 	}
